@@ -639,6 +639,10 @@ func setNthValue(ctx context.Context, scope *ReferenceScope, partition Partition
 				break
 			}
 		}
+		if count < n {
+			// the frame holds fewer than n (non-null) values
+			val = value.NewNull()
+		}
 
 		for _, idx := range frame.Records {
 			list[idx] = val
